@@ -520,6 +520,42 @@ func (s *Sim) Release(obj any) {
 	s.mu.Unlock()
 }
 
+// ReleaseOne makes one task waiting on obj runnable (the one the seeded scheduler draws).
+func (s *Sim) ReleaseOne(obj any) {
+	s.mu.Lock()
+	var ws []*Task
+	for _, t := range s.all {
+		if t.state == tsLockWait && t.waitObj == obj {
+			ws = append(ws, t)
+		}
+	}
+	s.mu.Unlock()
+	if len(ws) == 0 {
+		return
+	}
+	sort.Slice(ws, func(i, j int) bool { return less(ws[i].ord, ws[j].ord) })
+	k := 0
+	if len(ws) > 1 {
+		k = s.draw(len(ws), func() int { return int(s.rng.Uint32() % uint32(len(ws))) })
+	}
+	s.mu.Lock()
+	ws[k].state, ws[k].waitObj = tsParked, nil
+	s.mu.Unlock()
+}
+
+// WGGo replaces (*sync.WaitGroup).Go in instrumented code.
+func WGGo(wg *sync.WaitGroup, f func()) {
+	Yield()
+	wg.Add(1)
+	Go0(func() {
+		defer func() {
+			Yield()
+			wg.Done()
+		}()
+		f()
+	})
+}
+
 // ---- harness services ----
 
 // Seq returns the next global event sequence number (history stamps).
@@ -598,6 +634,7 @@ func (s *Sim) NoteFault(kind string) {
 func Sleep(d time.Duration) {
 	s, t := CurTask()
 	if s == nil || t == nil {
+		time.Sleep(d)
 		return
 	}
 	Yield()
